@@ -158,6 +158,10 @@ NegCases(sigs) ==
      \* attempts to give the hidden slot a value through the public API (outside the documented domain): only the consequence is checked
      \cup { History(L3, sigs, <<KeygenStep(keyL, 0, 0), IF nd = 1 THEN NdQualStep(1, fl, 0) ELSE QualStep(1, fl, 0, 4), EncStepC(fl), DecStep(3, 2)>>, "neg", "fill-hidden")
             : fl \in fills, nd \in {0, 1} }
+     \* the same with the slots hidden by omit-all-unless-present (the flag travels in the list structure, not in an entry)
+     \cup { History(L3, sigs, <<KeygenStep(ListOf(<<<<"V", v7>>, <<"U">>, <<"U">>>>, 1), 1, 0), IF nd = 1 THEN NdQualStep(1, fl, 0) ELSE QualStep(1, fl, 0, 4), EncStepC(fl), DecStep(3, 2)>>, "neg", "fill-hidden-omitall")
+            : fl \in fills \cup { ListOf(<<<<"V", v7>>, <<"V", FromNat(3)>>, <<"U">>>>, 1) }, nd \in {0, 1} }
+     \cup { History(L3, sigs, <<NdKeygenStep(ListOf(<<<<"V", v7>>, <<"U">>, <<"U">>>>, 1), 1), NdQualStep(1, fl, 0), EncStepC(fl), DecStep(3, 2)>>, "neg", "fill-hidden-omitall-nd") : fl \in fills }
      \cup { History(L3, sigs, <<NdKeygenStep(ListOf(<<<<"U">>, <<"U">>, <<"H">>>>, 1), 0), NdQualStep(1, ListOf(<<<<"V", v7>>, <<"U">>, <<"U">>>>, 1), 0),
                                  AdjNdStep(2, 1, ListOf(<<<<"V", v7>>, <<"U">>, <<"U">>>>, 1), fl), EncStepC(fl), DecStep(4, 3)>>, "neg", "fill-hidden-adjust") : fl \in fills }
 
